@@ -56,7 +56,9 @@ def add_hydrogens_inside(rnd, lines):
         if seen_res >= 2 and it[2][0].startswith("ATOM") and rnd.random() < 0.5 and not any(l[12:16].strip() in ("OXT", "O''") for l in it[2]):
             src = rnd.choice(it[2])
             x, y, z = pdbgen.coords(src)
-            h = pdbgen.setcols(src, 12, 16, " H%-2s" % rnd.choice(["", "A", "B1"]))
+            # names as written by other programs: from column 14 (" H  ", " HB1"), four characters from column 13
+            # ("HH11", "HD21") and the old digit-first style ("1HH1", "2HB ")
+            h = pdbgen.setcols(src, 12, 16, rnd.choice([" H  ", " HA ", " HB1", "HH11", "HD21", "HG12", "1HH1", "2HB ", " HZ3"]))
             h = pdbgen.setcols(h, 76, 78, " H")
             h = pdbgen.set_coords(h, x + 0.6, y + 0.6, z + 0.5)
             out.append(h)
